@@ -1214,34 +1214,28 @@ func (t *ZeroAllocTokenizer) TokenizeOptimized() ([]Token, error) {
 
 		// Determine the end token type and length
 		var endTokenType int
-		var endLength int
 
 		switch tagLoc.Type {
 		case TAG_VAR, TAG_VAR_TRIM:
 			// Check if it ends with -}}
 			if tagEndPos > tagContentStart && t.source[tagEndPos-1] == '-' {
 				endTokenType = TOKEN_VAR_END_TRIM
-				endLength = 3 // -}}
 				// Adjust tag content to remove the trailing dash
 				tagContent = tagContent[:len(tagContent)-1]
 			} else {
 				endTokenType = TOKEN_VAR_END
-				endLength = 2 // }}
 			}
 		case TAG_BLOCK, TAG_BLOCK_TRIM:
 			// Check if it ends with -%}
 			if tagEndPos > tagContentStart && t.source[tagEndPos-1] == '-' {
 				endTokenType = TOKEN_BLOCK_END_TRIM
-				endLength = 3 // -%}
 				// Adjust tag content to remove the trailing dash
 				tagContent = tagContent[:len(tagContent)-1]
 			} else {
 				endTokenType = TOKEN_BLOCK_END
-				endLength = 2 // %}
 			}
 		case TAG_COMMENT:
 			endTokenType = TOKEN_COMMENT_END
-			endLength = 2 // #}
 		}
 
 		// Process tag content based on tag type
@@ -1278,8 +1272,9 @@ func (t *ZeroAllocTokenizer) TokenizeOptimized() ([]Token, error) {
 		// Add end token
 		t.AddToken(endTokenType, "", t.line)
 
-		// Move past the end tag
-		pos = tagEndPos + endLength
+		// Move past the end tag: tagEndPos is where "}}", "%}" or "#}" starts, and the dash of a
+		// trimming closer lies before it, inside the tag
+		pos = tagEndPos + 2
 	}
 
 	// Add EOF token
